@@ -33,7 +33,7 @@ enum YieldKind
 };
 
 constexpr int MAXT = 4;
-constexpr uint64_t STEP_BUDGET = 20000;
+constexpr uint64_t STEP_BUDGET = 2000000; // far above any legitimate run (< 50k); a livelock, not a long record
 
 extern Counter f_preempt, f_stall, p_contended, f_clockjump;
 
